@@ -17,6 +17,9 @@ CONSTANTS
   HeapFifo = TRUE
   SlotStrict = TRUE
   CallsStopAll = TRUE
+  PushBeforeRegister = FALSE
+  FaultDropsHead = FALSE
+  Faults = TRUE
   GenDepth = 40
 SPECIFICATION GSpec
 INVARIANT Emit
